@@ -222,6 +222,11 @@ def gen_case(rng, tier, kind=None):
             # harmless for a two-pass covariance, fatal for a one-pass one
             X = X + 10.0 ** rng.uniform(3, 6) * (np.abs(X).std() + 1e-9) * rs.choice([-1, 1], size=d)
             case["large_offset"] = True
+        if not case.get("large_offset") and rng.random() < 0.12:
+            # physical units far from 1 (volts as 1e-8, counts as 1e+8): the model is equivariant,
+            # anything absolute inside the code is not
+            X = X * 10.0 ** rng.choice([-8, -6, -4, 4, 6, 8])
+            case["extreme_scale"] = True
         X = np.asarray([[float(f"{v:.12g}") for v in row] for row in X])
         case.update(X=L(X), chunks=_gen_chunks(rng, n, many=huge), cfg={"pinv": rng.random() < 0.15})
         if nc > 16:  # the per-class Dask graph is large: keep the number of blocks small
@@ -648,6 +653,7 @@ def run_case(case, replay=None):
     rec.probe("feature_chunked", bool(case.get("fchunks")))
     rec.probe("unknown_chunk_sizes", bool(case.get("nan_mask")))
     rec.probe("large_offset_features", bool(case.get("large_offset")))
+    rec.probe("data_scaled_by_1e-8_to_1e8", bool(case.get("extreme_scale")))
     rec.probe("lazy_expression_input", bool(case.get("lazy_expr")))
     rec.probe("integer_grid_data_with_exact_ties", bool(case.get("grid")))
     rec.probe("array_from_delayed_blocks", bool(case.get("from_delayed")))
